@@ -766,7 +766,21 @@ def convert_token_list_to_string(lTokens):
     return sReturn
 
 
+def remove_blank_line_tokens_from_lines_with_content(lTokens):
+    lReturn = []
+    iLast = len(lTokens) - 1
+    for iToken, oToken in enumerate(lTokens):
+        if isinstance(oToken, parser.blank_line):
+            bStartsLine = iToken == 0 or isinstance(lTokens[iToken - 1], parser.carriage_return)
+            bEndsLine = iToken == iLast or isinstance(lTokens[iToken + 1], parser.carriage_return)
+            if not (bStartsLine and bEndsLine):
+                continue
+        lReturn.append(oToken)
+    return lReturn
+
+
 def fix_blank_lines(lTokens):
+    lTokens = remove_blank_line_tokens_from_lines_with_content(lTokens)
     lReturn = []
     for iToken, oToken in enumerate(lTokens):
         try:
